@@ -60,10 +60,21 @@ def _is_hidden(f):
     return isinstance(f.name, HiddenName)
 
 
-def exec_ops(case, ops, op_timeout=60):
+class _Emitting(list):
+    def __init__(self, emit):
+        super().__init__()
+        self._emit = emit
+
+    def append(self, rec):
+        super().append(rec)
+        if self._emit:
+            self._emit(rec)
+
+
+def exec_ops(case, ops, op_timeout=60, emit=None):
     import ir
     import sweetpea as sp
-    out = []
+    out = _Emitting(emit)
     built = None
     t0 = time.time()
     old = signal.signal(signal.SIGALRM, _alarm)
@@ -171,32 +182,156 @@ def exec_ops(case, ops, op_timeout=60):
     return out
 
 
-def _worker(args):
-    idx, case, ops, op_timeout = args
+def _emit_ops(case, ops, op_timeout, emit):
+    """like exec_ops but streams every op record through emit(rec) as soon as it is known"""
+    recs = exec_ops(case, ops, op_timeout, emit=emit)
+    return recs
+
+
+def _worker_loop(conn, op_timeout):
     os.environ.setdefault("PYTHONHASHSEED", "0")
-    try:
-        return idx, exec_ops(case, ops, op_timeout)
-    except BaseException as e:  # harness failure, not an observation
-        return idx, [{"op": "harness", "status": "harness_error", "exc": type(e).__name__,
-                      "msg": traceback.format_exc()[-800:]}]
+    try:        # native solver libraries write to fd 1 directly; observations travel over the pipe only
+        dn = os.open(os.devnull, os.O_WRONLY)
+        os.dup2(dn, 1)
+    except OSError:
+        pass
+    while True:
+        try:
+            msg = conn.recv()
+        except EOFError:
+            return
+        if msg is None:
+            return
+        idx, case, ops = msg
+        try:
+            exec_ops(case, ops, op_timeout, emit=lambda rec: conn.send(("rec", idx, rec)))
+            conn.send(("done", idx, None))
+        except BaseException as e:  # harness failure, not an observation
+            conn.send(("rec", idx, {"op": "harness", "status": "harness_error", "exc": type(e).__name__,
+                                    "msg": traceback.format_exc()[-800:]}))
+            conn.send(("done", idx, None))
+
+
+class _Worker:
+    def __init__(self, ctx, op_timeout):
+        self.parent, child = ctx.Pipe()
+        self.proc = ctx.Process(target=_worker_loop, args=(child, op_timeout), daemon=True)
+        self.proc.start()
+        child.close()
+        self.task = None
+        self.started = 0.0
+        self.ntasks = 0
 
 
 def run_tasks(tasks, op_timeout=60, nproc=None, chdir=None):
-    """tasks: list of (case, ops).  Returns list of observation lists, same order."""
+    """tasks: list of (case, ops).  Returns list of observation lists, same order.
+
+    Every task runs in a worker process; records are streamed op by op, so that when a worker dies
+    (a solver library aborting the process) or hangs inside native code, the ops finished so far are kept
+    and the op in flight is recorded as status "crashed" / "timeout" - an observation like any other."""
+    import multiprocessing.connection as mpc
     nproc = nproc or min(16, os.cpu_count() or 4)
-    results = [None] * len(tasks)
+    results = [[] for _ in tasks]
     if not tasks:
         return results
     cwd = os.getcwd()
     wd = chdir or tempfile.mkdtemp(prefix="impl_", dir=_workdir())
     os.chdir(wd)  # sweetpea writes its temporary .cnf files into the cwd
+    ctx = mp.get_context("fork")
+    pending = list(range(len(tasks)))[::-1]
+    workers = []
+    done = 0
+
+    def hard_limit(idx):
+        ops = tasks[idx][1]
+        return op_timeout + sum(o.get("timeout", op_timeout) for o in ops) + 30
+
+    def in_flight_op(idx):
+        n = len(results[idx])          # records so far: build + finished ops
+        ops = tasks[idx][1]
+        if n == 0:
+            return {"op": "build"}
+        if n - 1 < len(ops):
+            o = ops[n - 1]
+            return {k: o[k] for k in ("op", "strategy", "n") if k in o}
+        return {"op": "?"}
+
+    def assign(w):
+        if pending:
+            idx = pending.pop()
+            w.task = idx
+            w.started = time.time()
+            w.ntasks += 1
+            w.parent.send((idx, tasks[idx][0], tasks[idx][1]))
+            return True
+        w.task = None
+        return False
+
     try:
-        ctx = mp.get_context("fork")
-        with ctx.Pool(nproc, maxtasksperchild=50) as pool:
-            it = pool.imap_unordered(_worker, [(i, c, o, op_timeout) for i, (c, o) in enumerate(tasks)], chunksize=1)
-            for idx, res in it:
-                results[idx] = res
+        for _ in range(min(nproc, len(tasks))):
+            w = _Worker(ctx, op_timeout)
+            workers.append(w)
+            assign(w)
+        while done < len(tasks):
+            conns = [w.parent for w in workers if w.task is not None]
+            ready = mpc.wait(conns, timeout=2.0)
+            now = time.time()
+            for w in list(workers):
+                if w.task is None:
+                    continue
+                idx = w.task
+                dead = False
+                if w.parent in ready:
+                    try:
+                        while w.parent.poll():
+                            kind, i, rec = w.parent.recv()
+                            if kind == "rec":
+                                results[i].append(rec)
+                            elif kind == "done":
+                                done += 1
+                                w.task = None
+                                break
+                    except (EOFError, OSError):
+                        dead = True
+                if w.task is None:
+                    if w.ntasks >= 40:       # recycle workers to bound leaks
+                        try:
+                            w.parent.send(None)
+                        except OSError:
+                            pass
+                        workers.remove(w)
+                        if pending:
+                            nw = _Worker(ctx, op_timeout)
+                            workers.append(nw)
+                            assign(nw)
+                    else:
+                        assign(w)
+                    continue
+                if not dead and not w.proc.is_alive():
+                    dead = True
+                hung = (now - w.started) > hard_limit(idx)
+                if dead or hung:
+                    rec = in_flight_op(idx)
+                    rec["status"] = "crashed" if dead else "timeout"
+                    rec["exc"] = "ProcessDied" if dead else "HardTimeout"
+                    rec["msg"] = "worker exit code %s" % w.proc.exitcode if dead else "no answer within the hard limit"
+                    results[idx].append(rec)
+                    done += 1
+                    try:
+                        w.proc.kill()
+                    except Exception:
+                        pass
+                    workers.remove(w)
+                    if pending:
+                        nw = _Worker(ctx, op_timeout)
+                        workers.append(nw)
+                        assign(nw)
     finally:
+        for w in workers:
+            try:
+                w.proc.kill()
+            except Exception:
+                pass
         os.chdir(cwd)
         if chdir is None:
             import shutil
